@@ -461,6 +461,7 @@ fn parse_request(req: &str) -> Option<(Vec<((i32, i32), V)>, E)> {
 
 thread_local! {
     static MODEL: RefCell<Option<Model<'static>>> = const { RefCell::new(None) };
+    static CUR_POOL: RefCell<Vec<((i32, i32), V)>> = const { RefCell::new(Vec::new()) };
 }
 
 const FROW: i32 = 20; // the formula lives in B20; its spill area B20:E24 is free
@@ -495,17 +496,26 @@ fn set_pool(m: &mut Model, pool: &[((i32, i32), V)]) {
     }
 }
 
+/// the sign of a zero RESULT is not compared (f64::min/max do not specify it for ±0)
+fn canon_zero(f: f64) -> f64 {
+    if f == 0.0 {
+        0.0
+    } else {
+        f
+    }
+}
+
 fn cell_val(m: &Model, r: i32, c: i32) -> String {
     match m.workbook.worksheets[0].sheet_data.get(&r).and_then(|x| x.get(&c)) {
         Some(Cell::CellFormula { v, .. }) | Some(Cell::ArrayFormula { v, .. }) => match v {
-            FormulaValue::Number(f) => format!("n{:016x}", f.to_bits()),
+            FormulaValue::Number(f) => format!("n{:016x}", canon_zero(*f).to_bits()),
             FormulaValue::Text(s) => format!("s{}", hex(s)),
             FormulaValue::Boolean(b) => format!("b{}", *b as u8),
             FormulaValue::Error { ei, .. } => format!("e{}", err_code(&format!("{ei}"))),
             FormulaValue::Unevaluated => "u".into(),
         },
         Some(Cell::SpillCell { v, .. }) => match v {
-            SpillValue::Number(f) => format!("n{:016x}", f.to_bits()),
+            SpillValue::Number(f) => format!("n{:016x}", canon_zero(*f).to_bits()),
             SpillValue::Text(s) => format!("s{}", hex(s)),
             SpillValue::Boolean(b) => format!("b{}", *b as u8),
             SpillValue::Error(ei) => format!("e{}", err_code(&format!("{ei}"))),
@@ -517,7 +527,12 @@ fn cell_val(m: &Model, r: i32, c: i32) -> String {
 
 /// evaluate one formula text at B20 on the current pool; canonical answer `V v` / `A h w v…`
 fn eval_formula(m: &mut Model, text: &str) -> String {
-    // clear the previous formula (and its spill)
+    // A fresh workbook for every formula: the engine keys its per-sheet formula table by the
+    // *stringified* formula and the stringifier drops some parentheses (F09 family, C09), so two
+    // different formulas entered into one workbook can alias each other (`=(A2&C3)=C2` entered after
+    // `=A2&(C3=C2)` is evaluated as the latter). That defect belongs to C09; C06 must not inherit it.
+    *m = fresh_model();
+    CUR_POOL.with(|p| set_pool(m, &p.borrow()));
     let _ = m.set_user_input(0, FROW, FCOL, String::new());
     let _ = m.set_user_input(0, FROW, FCOL, format!("={text}"));
     m.evaluate();
@@ -545,9 +560,9 @@ fn with_model<T>(pool: &[((i32, i32), V)], f: impl FnOnce(&mut Model) -> T) -> O
         if slot.is_none() {
             *slot = Some(fresh_model());
         }
+        CUR_POOL.with(|p| *p.borrow_mut() = pool.to_vec());
         let res = catch_unwind(AssertUnwindSafe(|| {
             let m = slot.as_mut().unwrap();
-            set_pool(m, pool);
             f(m)
         }));
         match res {
